@@ -397,6 +397,10 @@ var c04Hostile = [][]byte{
 	[]byte(`{"type":"Person","id":"https://a.b/\u2028","preferredUsername":"x\u2029","publicKey":{"id":"https://a.b/k\u2028","owner":"https://a.b/\\","publicKeyPem":"\u2029\u000b"}}`),
 	[]byte(`{"type":"Link\u2028","href":"https://a.b/l","mediaType":"text/\u2029","hrefLang":"e\u2028n","rel":"x\u000b"}`),
 	[]byte(`{"type":"Create","id":"https://a.b/c","object":{"type":"Note","source":{"content":"\u2028\u2029","mediaType":"t\u000b"}},"summaryMap":{"e\u2028n":"v"}}`),
+	// language-tagged texts that are not valid UTF-8, in values that have an id (the verbose formatter prints those): the parser passes the bytes through
+	[]byte("{\"type\":\"Note\",\"id\":\"https://a.b/n\",\"nameMap\":{\"en\":\"caf\xe9\",\"fr\":\"\xff\xfe\"},\"summaryMap\":{\"de\":\"\xc3\"},\"content\":\"\x80\",\"contentMap\":{\"en\":\"\xed\xa0\x80\"}}"),
+	[]byte("{\"type\":\"Person\",\"id\":\"https://a.b/p\",\"preferredUsernameMap\":{\"en\":\"\xf8\x88\"},\"name\":\"\xf8\",\"summaryMap\":{\"en\":\"a\xc0\xafb\",\"-\":\"\xfe\"}}"),
+	[]byte("{\"type\":\"Create\",\"id\":\"https://a.b/c\",\"nameMap\":{\"en\":\"\xe9\"},\"object\":{\"type\":\"Article\",\"id\":\"https://a.b/a\",\"nameMap\":{\"pt\":\"\xe3o\"},\"source\":{\"contentMap\":{\"en\":\"\xa0\"}}}}"),
 }
 
 func c04Nest(shape string, depth int) []byte {
@@ -541,9 +545,17 @@ func TestC04(t *testing.T) {
 		jsonSeeds, gobSeeds := c04Seeds()
 		runChild(len(c04Entries), func(i int) ([]keyed, string) {
 			e := c04Entries[i]
-			seeds := jsonSeeds
+			seeds := append(append([][]byte{}, jsonSeeds...), c04Hostile...)
 			if e.class == "gob" {
 				seeds = gobSeeds
+				// what the hostile documents decode to, stored and read back
+				for _, doc := range c04Hostile {
+					if it, err := ap.UnmarshalJSON(doc); err == nil && !vocab.IsEmptyItem(it) {
+						if b, err := ap.GobEncode(it); err == nil && len(b) > 0 {
+							seeds = append(seeds, b)
+						}
+					}
+				}
 			}
 			var ds []keyed
 			followed := 0
@@ -555,6 +567,8 @@ func TestC04(t *testing.T) {
 					if v, err = e.run(data); err != nil {
 						return
 					}
+					stage = "follow-up"
+					c04Follow(v)
 					rv := reflect.ValueOf(v)
 					if rv.Kind() == reflect.Ptr && !rv.IsNil() && rv.Elem().Kind() == reflect.Struct {
 						if it, isItem := rv.Elem().Interface().(ap.Item); isItem {
@@ -630,7 +644,7 @@ func TestC04(t *testing.T) {
 		"the seed documents (19 repository mocks, one every-field-set document per type) and of the gob encodings of every-field-set values, at the matching entry points; nesting: arrays/objects/lists/language maps/" +
 		"collections nested 1..200000 deep, chains (every type name x every item-valued term nested 28 deep, ~1800 documents), type pairs (a list of two members for every ordered pair of type names, three document forms) and gob values nested up to 18 deep, in a child process (a stack overflow is fatal) with an allocation bound; structure-aware random: seeds with a random node replaced by " +
 		"another kind, duplicated members, huge numbers, invalid UTF-8, byte flips and rewritten length bytes in gob streams; corpus: saved fuzz inputs; thorough adds a native coverage-guided fuzz campaign. " +
-		"value-forms (child process): every entry point x every valid seed; what a per-type decoder filled is put through the follow-up battery by value as well. Oracle: no panic, returns within a 10 s watchdog, allocation <= 64 MiB + 4 KiB per input byte (measured layers), and the follow-up battery (IsNil, NotEmpty, predicates, ItemsEqual(v,v), both encoders, fmt, " +
+		"value-forms (child process, run first): every entry point x every valid seed and hostile document (and what those decode to, stored with gob); the follow-up battery on what was returned, and on what a per-type decoder filled by value as well. Oracle: no panic, returns within a 10 s watchdog, allocation <= 64 MiB + 4 KiB per input byte (measured layers), and the follow-up battery (IsNil, NotEmpty, predicates, ItemsEqual(v,v), both encoders, fmt, " +
 		"DerefItem) on every value returned without error. non-trivial = the input is accepted by the underlying parser (JSON parses / gob decodes) and reaches a loader; distinct by entry point + input bytes")
 	r.Assume("asymptotic cost is not decided (only a coarse absolute allocation bound and a watchdog with several orders of magnitude of margin)")
 
@@ -645,6 +659,32 @@ func TestC04(t *testing.T) {
 		}
 	}
 	r.Note("entry_points", len(c04Entries))
+
+	// the child-process layers that can end in a fatal error come first: what they report is printed at once, and stays reported should
+	// a later in-process layer die of the same cause
+	if r.WantLayer("value-forms", true) && !r.Replaying() {
+		results := runInChildren(t, "value-forms", len(c04Entries), 15*time.Minute)
+		for i, res := range results {
+			cell := "value-form " + c04Entries[i].name
+			r.Case(cell+" "+res.Info, strings.Contains(res.Info, "followed=") && !strings.HasSuffix(res.Info, "followed=0"), "value-forms")
+			if i%7 == 0 {
+				r.Sample(cell, map[string]interface{}{"layer": "value-forms", "entry": c04Entries[i].name, "info": res.Info})
+			}
+			if res.Fatal != "" {
+				what := "fatal"
+				if strings.Contains(res.Fatal, "stack") {
+					what = "stack-overflow"
+				}
+				r.Report("value-forms", cell, "total "+what+" value-form "+c04Entries[i].name, res.Fatal+" | "+cell, cell)
+				continue
+			}
+			for _, d := range res.Diffs {
+				r.Report("value-forms", cell, d.Key, d.Detail+" | "+cell, cell)
+			}
+		}
+		r.Cells(len(c04Entries), len(c04Entries))
+		r.Exhaustive("value-forms", true)
+	}
 
 	record := func(layer, cell string, e c04Entry, data []byte, ds []keyed, outcome string, sample bool) {
 		nt := outcome == "value" || outcome == "nil"
@@ -855,30 +895,6 @@ func TestC04(t *testing.T) {
 		}
 		r.Cells(nPairs, nPairs)
 		r.Exhaustive("type-pairs", true)
-	}
-
-	if r.WantLayer("value-forms", true) && !r.Replaying() {
-		results := runInChildren(t, "value-forms", len(c04Entries), 15*time.Minute)
-		for i, res := range results {
-			cell := "value-form " + c04Entries[i].name
-			r.Case(cell+" "+res.Info, strings.Contains(res.Info, "followed=") && !strings.HasSuffix(res.Info, "followed=0"), "value-forms")
-			if i%7 == 0 {
-				r.Sample(cell, map[string]interface{}{"layer": "value-forms", "entry": c04Entries[i].name, "info": res.Info})
-			}
-			if res.Fatal != "" {
-				what := "fatal"
-				if strings.Contains(res.Fatal, "stack") {
-					what = "stack-overflow"
-				}
-				r.Report("value-forms", cell, "total "+what+" value-form "+c04Entries[i].name, res.Fatal+" | "+cell, cell)
-				continue
-			}
-			for _, d := range res.Diffs {
-				r.Report("value-forms", cell, d.Key, d.Detail+" | "+cell, cell)
-			}
-		}
-		r.Cells(len(c04Entries), len(c04Entries))
-		r.Exhaustive("value-forms", true)
 	}
 
 	if r.WantLayer("chains", true) && !r.Replaying() {
